@@ -25,6 +25,18 @@ RULE_SYNC = ("real single syncs (processNextWorkItem) of generated scenarios: co
              "judged by the property's oracle; distinct = distinct (cfg, cache, calls) text; ")
 
 
+def rounds(mode, nq, nt, nontrivial):
+    """multi-sync scenarios of the composite controller (TestVerifRounds): every sync is a "sync" line, each scenario ends with a "rounds" summary"""
+    return {"pkg": "pkg/controller/composite", "test": "TestVerifRounds", "env": {"VERIF_MODE": mode}, "shards": 12,
+            "n_quick": nq, "n_thorough": nt, "thorough_seeds": 2, "nontrivial": nontrivial}
+
+
+RULE_ROUNDS = ("; scenario streams: whole histories of the real controller (fresh caches before every sync, a fair environment that makes written children "
+               "healthy between syncs): convergence from generated cluster contents (9 syncs), rollouts of 1-4 children with a second spec change midway, "
+               "the same with a crash after k requests of one sync (process state dropped), one injected API fault against a fault-free twin run; "
+               "each scenario ends with a summary line judged by the cross-round oracle")
+
+
 def sync_prop(theorems, nontrivial, rule, areas, assumptions=None, extra_streams=None):
     return {"theorems": theorems, "streams": SYNC_STREAMS + (extra_streams or []), "nontrivial": nontrivial,
             "rule": RULE_SYNC + rule, "areas": areas, "trusted_base": TB_SYNC,
@@ -54,6 +66,8 @@ C12T = [("Mc.Props.C12", "Mc.C12.C12_child_independent"), ("Mc.Props.C12", "Mc.C
 C13T = [("Mc.Props.C13", "Mc.C13.C13_total"), ("Mc.Props.C13", "Mc.C13.C13_total_decorator"), ("Mc.Props.C13", "Mc.C13.C12_decorator_never_tooMany"), ("Mc.Props.C13", "Mc.C13.C13_reject_fails"), ("Mc.Props.C13", "Mc.C13.C13_reject_stops"), ("Mc.Props.C13", "Mc.C13.C13_reject_no_write"), ("Mc.Props.C13", "Mc.C13.C13_reject_fails_sync"), ("Mc.Props.C13", "Mc.C13.C13_reject_outcome"), ("Mc.Props.C13", "Mc.C13.C13_reject_no_write_decorator")]
 C06LT = [("Mc.Props.C06Lift", "Mc.C06.C06_distinct_targets"), ("Mc.Props.C06Lift", "Mc.C06.C06_distinct_targets_cluster"), ("Mc.Props.C06Lift", "Mc.C06.C06_lift"), ("Mc.Props.C06Lift", "Mc.C06.C06_lift_create"), ("Mc.Props.C06Lift", "Mc.C06.C06_lift_ondelete"), ("Mc.Props.C06Lift", "Mc.C06.C06_lift_exact"), ("Mc.Props.C06", "Mc.C06.C06_delete_inv"), ("Mc.Props.C06", "Mc.C06.C06_update_inv")]
 
+C08T = [("Mc.Props.C07", "Mc.C07." + t) for t in ["C07_gate", "C07_child_happy", "C07_wait", "C07_progress", "C07_complete", "C07_complete_forall", "C07_claims_filtered"]]
+
 PROPS = {
     "C19": {
         "theorems": C19T,
@@ -75,13 +89,21 @@ PROPS = {
     "C03": sync_prop(C03T, ["hook-sync", "hook-finalize"],
                      "non-trivial = a sync or finalize hook was called (its children map is compared with the owned set computed from the cache snapshot)", ["hook", "claim"]),
     "C09": sync_prop(C09T, ["create-revision", "update-revision", "delete-revision"],
-                     "non-trivial = a ControllerRevision was written in the sync", ["revisions", "children"]),
+                     "non-trivial = a ControllerRevision was written in the sync" + RULE_ROUNDS, ["revisions", "children"],
+                     extra_streams=[rounds("crash", 36, 360, ["rounds-crash", "create-revision", "update-revision", "delete-revision"])]),
+    "C07": sync_prop(C07T, ["update-revision", "create-revision", "delete-revision"],
+                     "non-trivial = a ControllerRevision was written (claims moved, revision created or pruned)" + RULE_ROUNDS, ["revisions", "children", "status", "hook"],
+                     extra_streams=[rounds("rollout", 36, 360, ["update-revision", "create-revision", "delete-revision"])]),
+    "C08": sync_prop(C08T, ["rounds-rollout", "update-revision"],
+                     "non-trivial = a whole rollout scenario (summary line), or a sync that wrote a ControllerRevision" + RULE_ROUNDS, ["revisions", "children", "status"],
+                     extra_streams=[rounds("rollout", 36, 360, ["rounds-rollout", "update-revision"])]),
     "C11": sync_prop(C11T, ["updateStatus-parent", "failed-updateStatus"],
                      "non-trivial = a parent status write was attempted", ["status", "outcome"]),
     "C16": sync_prop(C16T, ["update-parent", "updateStatus-parent"],
                      "non-trivial = the decorated object was written (decorator traces); composite traces are not judged", ["parent", "status", "hook"]),
     "C12": sync_prop(C12T, ["failed-create", "failed-update", "failed-delete", "failed-updateStatus", "outcome-error"],
-                     "non-trivial = some request failed or the sync reported an error", ["outcome", "children", "status", "claim", "revisions", "finalizer", "parent"]),
+                     "non-trivial = some request failed or the sync reported an error" + RULE_ROUNDS, ["outcome", "children", "status", "claim", "revisions", "finalizer", "parent"],
+                     extra_streams=[rounds("faults", 96, 960, ["rounds-faults", "failed-create", "failed-update", "failed-delete", "failed-updateStatus", "outcome-error"])]),
     "C13": sync_prop(C13T, ["outcome-error", "hook-sync", "hook-finalize"],
                      "non-trivial = a hook was called", ["outcome", "hook", "children"]),
     "C10": sync_prop(C10T + C10ST, ["update-parent", "hook-finalize", "create-child"],
